@@ -396,9 +396,50 @@ def w_independence(ctx, rng, i):
                     out.append(("apply(probe)", np.array(z.apply(probe_pts[:, :nd].copy() if nd else probe_pts.copy()), copy=True)))
                 except Exception as e:
                     out.append(("apply(probe)", "raises:" + type(e).__name__))
+        def model_api():
+            # linear models: what the model does with a fixed sample / fixed weights through its own API (object- or vector-level)
+            from menpo.model import LinearVectorModel, PCAModel
+            if not isinstance(z, LinearVectorModel):
+                return
+            fixed = np.random.default_rng(23).normal(size=z.n_features)
+            try:
+                sample = z.template_instance.from_vector(fixed) if isinstance(z, PCAModel) else fixed
+            except Exception:
+                return
+            for nm, f in (("project(fixed)", lambda: z.project(sample)), ("reconstruct(fixed)", lambda: z.reconstruct(sample)),
+                          ("instance([0.7])", lambda: z.instance(np.array([0.7]))), ("component(0)", lambda: z.component(0)),
+                          ("project_out(fixed)", lambda: z.project_out(sample))):
+                try:
+                    r = f()
+                    out.append((nm, np.array(r.as_vector() if hasattr(r, "as_vector") else r, dtype=float, copy=True)))
+                except Exception as e:
+                    out.append((nm, "raises:" + type(e).__name__))
+            # ... and the model computes with its *own* state: the answers follow from its own mean and (active) components
+            from menpo.model import PCAVectorModel
+            if isinstance(z, PCAVectorModel):
+                try:
+                    C, mu = np.asarray(z.components, dtype=float), np.asarray(z.mean_vector, dtype=float)
+                    w = (fixed - mu) @ C.T
+                    ref = {"project(fixed)": w, "reconstruct(fixed)": w @ C + mu, "instance([0.7])": 0.7 * C[0] + mu, "project_out(fixed)": fixed - mu - w @ C}        # (the residual is defined with the mean subtracted)
+                except Exception:
+                    ref = {}
+                got = dict(out)
+                ctx.tap("model_answers_from_its_own_state", "calls")
+                for nm, e in ref.items():
+                    g = got.get(nm)
+                    if g is None:
+                        continue
+                    ctx.tap("model_answers_from_its_own_state", "checked")
+                    if not isinstance(g, str):
+                        g = g.ravel()
+                    if isinstance(g, str) or g.shape != e.shape or not (tx.maxdiff(g, e) <= 1e-7 * max(1.0, float(np.abs(e).max()))):
+                        ctx.fail("copy_or_original_does_not_compute_with_its_own_state", cls=type(z).__name__, mech=nm.split("(")[0],
+                                 got=g if isinstance(g, str) else float(tx.maxdiff(g, e)) if g.shape == e.shape else "shape %s vs %s" % (g.shape, e.shape))
+                        break
         if apply_first:
             app()
         out.extend(warm.snapshot(z))
+        model_api()
         if not apply_first:
             app()
         return sorted(out, key=lambda kv: kv[0])
